@@ -1,25 +1,230 @@
-//! C28 — not built yet (stub).
+//! C28 — a copied index directory is self-contained.
+//! Build an index at `<scratch>/orig`, copy the directory to `<scratch>/copy`, keep / modify /
+//! remove the original, then search, commit and compact through the copy while every storage
+//! primitive is traced (hook H1).  Finder: no traced path outside the copy, the original's
+//! content hash unchanged (when kept), results through the copy equal the original's results at
+//! copy time, and everything still works when the original is gone.  Correspondence: the set of
+//! segment-file paths the code touches equals the model's `touched resolve copy manifest`.
+use crate::idx;
 use crate::proto::Driver;
 use crate::rng::Rng;
 use crate::summary::Summary;
+use crate::util::{guarded, scratch};
 use crate::{Prop, Tier};
+use searchlite_core::api::Index;
+use searchlite_core::storage::verif::{install, uninstall, FsEvent};
 use serde_json::{json, Value};
+use std::collections::{BTreeMap, BTreeSet};
+use std::path::{Path, PathBuf};
+use std::sync::{Arc, Mutex};
 
-pub struct Stub;
-pub static P: Stub = Stub;
+pub struct C28;
+pub static P: C28 = C28;
 
-impl Prop for Stub {
+const WORDS: [&str; 6] = ["rust", "search", "engine", "fast", "lite", "index"];
+
+fn schema() -> Value {
+  json!({
+    "text_fields": [{"name":"body","analyzer":"default","stored":true,"indexed":true}],
+    "keyword_fields": [{"name":"tag","stored":true,"indexed":true,"fast":true}],
+    "numeric_fields": []
+  })
+}
+
+fn copy_dir(from: &Path, to: &Path) {
+  let _ = std::fs::create_dir_all(to);
+  if let Ok(rd) = std::fs::read_dir(from) {
+    for e in rd.flatten() {
+      if e.path().is_file() {
+        let _ = std::fs::copy(e.path(), to.join(e.file_name()));
+      }
+    }
+  }
+}
+
+fn dir_hash(dir: &Path) -> BTreeMap<String, u64> {
+  let mut out = BTreeMap::new();
+  if let Ok(rd) = std::fs::read_dir(dir) {
+    for e in rd.flatten() {
+      if e.path().is_file() {
+        let b = std::fs::read(e.path()).unwrap_or_default();
+        out.insert(e.file_name().to_string_lossy().to_string(), crate::summary::fnv(&crate::util::hex(&b)));
+      }
+    }
+  }
+  out
+}
+
+fn observe(idx: &Index) -> Result<Value, String> {
+  let reader = idx.reader().map_err(|e| format!("reader: {e}"))?;
+  let mut out = Vec::new();
+  for req in [
+    json!({"query":{"type":"match_all"},"limit":1000,"return_stored":true,"execution":"bm25"}),
+    json!({"query":"rust engine","limit":1000,"return_stored":false,"execution":"bm25"}),
+    json!({"query":{"type":"match_all"},"filter":{"KeywordEq":{"field":"tag","value":"red"}},"limit":1000,"return_stored":false}),
+  ] {
+    match idx::search(&reader, &req) {
+      idx::Outcome::Ok(v) => out.push(json!(v["hits"].as_array().map(|a| a.iter().map(|h| json!([h["doc_id"], h["score"], h["fields"]])).collect::<Vec<_>>()))),
+      idx::Outcome::Err(e) => return Err(format!("search: {e}")),
+      idx::Outcome::Panic(p) => return Err(format!("panic: {p}")),
+    }
+  }
+  Ok(json!(out))
+}
+
+impl Prop for C28 {
   fn id(&self) -> &'static str {
     "C28"
   }
   fn rule(&self) -> &'static str {
-    "stub"
+    "case = random committed index (2-4 commits, optional deletion, optional pending log operations) copied to a new directory, with the original kept / modified by a further commit / removed, followed by search, add+commit, delete+commit and compaction through the copy; non-trivial when the index has at least two segments at copy time (so that compaction rewrites and deletes files); distinct = distinct case JSON"
   }
-  fn count(&self, _tier: Tier) -> usize {
-    0
+  fn count(&self, tier: Tier) -> usize {
+    tier.pick(24, 400)
   }
-  fn gen(&self, _rng: &mut Rng, _tier: Tier, _i: usize) -> Value {
-    json!(null)
+  fn gen(&self, rng: &mut Rng, _tier: Tier, _i: usize) -> Value {
+    let ncommits = 1 + rng.below(4);
+    let mut did = 0;
+    let commits: Vec<Value> = (0..ncommits)
+      .map(|_| {
+        let nd = 1 + rng.below(4);
+        let docs: Vec<Value> = (0..nd)
+          .map(|_| {
+            did += 1;
+            let nw = 1 + rng.below(5);
+            let body: Vec<&str> = (0..nw).map(|_| *rng.pick(&WORDS)).collect();
+            let tag = *rng.pick(&["red", "blue"]);
+            json!({"_id": format!("d{did}"), "body": body.join(" "), "tag": tag})
+          })
+          .collect();
+        json!(docs)
+      })
+      .collect();
+    let original = *rng.pick(&["kept", "modified", "removed"]);
+    json!({"commits": commits, "delete": if rng.chance(1, 2) { json!(format!("d{}", 1 + rng.below(did))) } else { json!(null) },
+           "pending": rng.chance(1, 3), "original": original, "steps": ["search", "commit", "delete", "compact", "search"]})
   }
-  fn run_case(&self, _drv: &mut Driver, _case: &Value, _s: &mut Summary) {}
+
+  fn run_case(&self, drv: &mut Driver, case: &Value, s: &mut Summary) {
+    let case = if case.get("case").is_some() { &case["case"] } else { case };
+    let base = scratch();
+    let orig = base.path().join("orig");
+    let copy = base.path().join("copy");
+    let built = guarded(|| -> Result<Value, String> {
+      let idx = idx::create(&orig, &schema(), false)?;
+      for docs in case["commits"].as_array().cloned().unwrap_or_default() {
+        idx::add_commit(&idx, docs.as_array().unwrap())?;
+      }
+      if let Some(id) = case["delete"].as_str() {
+        idx::delete_commit(&idx, &[id.to_string()])?;
+      }
+      if case["pending"] == json!(true) {
+        let mut w = idx.writer().map_err(|e| e.to_string())?;
+        w.add_document(&idx::doc(&json!({"_id":"pend","body":"pending rust","tag":"red"}))).map_err(|e| e.to_string())?;
+      }
+      observe(&idx)
+    });
+    let at_copy = match built {
+      Ok(Ok(v)) => v,
+      other => {
+        s.fail("build", "cannot build the original index", case, json!(format!("{other:?}")));
+        return;
+      }
+    };
+    copy_dir(&orig, &copy);
+    let manifest_txt = std::fs::read_to_string(copy.join("MANIFEST.json")).unwrap_or_default();
+    let manifest: Value = serde_json::from_str(&manifest_txt).unwrap_or(Value::Null);
+    let nseg = manifest["segments"].as_array().map(|a| a.len()).unwrap_or(0);
+    let mut stored_paths: Vec<String> = Vec::new();
+    for seg in manifest["segments"].as_array().cloned().unwrap_or_default() {
+      for k in ["terms", "postings", "docstore", "fast", "meta"] {
+        if let Some(p) = seg["paths"][k].as_str() {
+          stored_paths.push(p.to_string());
+        }
+      }
+    }
+    s.case(case, nseg >= 2);
+    s.count(&format!("original.{}", case["original"].as_str().unwrap_or("?")));
+    s.count(&format!("segments.{}", nseg.min(4)));
+    match case["original"].as_str() {
+      Some("modified") => {
+        let r = guarded(|| -> Result<(), String> {
+          let idx = idx::open(&orig)?;
+          idx::add_commit(&idx, &[json!({"_id":"late","body":"late rust engine","tag":"red"})])
+        });
+        if !matches!(r, Ok(Ok(()))) {
+          s.notes.push(format!("modifying the original failed: {r:?}"));
+        }
+      }
+      Some("removed") => {
+        let _ = std::fs::remove_dir_all(&orig);
+      }
+      _ => {}
+    }
+    let orig_hash = dir_hash(&orig);
+    // ---- operate on the copy under trace
+    let events: Arc<Mutex<Vec<(String, PathBuf)>>> = Arc::new(Mutex::new(Vec::new()));
+    let ev2 = events.clone();
+    install(base.path().to_path_buf(), Arc::new(move |ev: &FsEvent| {
+      if !ev.after {
+        ev2.lock().unwrap().push((ev.op.to_string(), ev.path.clone()));
+        if let Some(t) = &ev.to {
+          ev2.lock().unwrap().push((ev.op.to_string(), t.clone()));
+        }
+      }
+      Ok(())
+    }));
+    let copy2 = copy.clone();
+    let run = guarded(|| -> Result<(Value, Value), String> {
+      let idx = idx::open(&copy2)?;
+      let first = observe(&idx)?;
+      idx::add_commit(&idx, &[json!({"_id":"n1","body":"new rust doc","tag":"blue"})])?;
+      idx::delete_commit(&idx, &["d1".to_string()])?;
+      idx.compact().map_err(|e| format!("compact: {e}"))?;
+      let after = observe(&idx)?;
+      // and from disk again
+      let idx2 = idx::open(&copy2)?;
+      let again = observe(&idx2)?;
+      if again != after {
+        return Err("results differ after reopening the copy".into());
+      }
+      Ok((first, after))
+    });
+    uninstall(base.path());
+    let evs = events.lock().unwrap().clone();
+    let outside: BTreeSet<String> = evs.iter().filter(|(_, p)| !p.starts_with(&copy)).map(|(op, p)| format!("{op} {}", p.display())).collect();
+    let sub = case.clone();
+    if !outside.is_empty() {
+      let ex: Vec<&String> = outside.iter().take(6).collect();
+      let destructive = outside.iter().any(|x| x.starts_with("remove") || x.starts_with("create") || x.starts_with("write") || x.starts_with("rename"));
+      s.fail(
+        if destructive { "copy.modifies-original" } else { "copy.reads-original" },
+        "operations through the copied directory touch paths outside it",
+        &sub,
+        json!({"n": outside.len(), "examples": ex}),
+      );
+    }
+    if case["original"] != "removed" && dir_hash(&orig) != orig_hash {
+      s.fail("copy.modifies-original", "files of the original directory changed while only the copy was used", &sub, json!(null));
+    }
+    match run {
+      Ok(Ok((first, _after))) => {
+        if first != at_copy {
+          s.fail("copy.results-differ", "the copy does not serve the results the original served when it was copied", &sub, json!({"copy": first, "original_at_copy_time": at_copy}));
+        }
+      }
+      Ok(Err(e)) => s.fail("copy.operation-fails", "an operation through the copied directory failed", &sub, json!(e)),
+      Err(p) => s.fail("copy.panic", "an operation through the copied directory panicked", &sub, json!(p)),
+    }
+    // ---- correspondence: segment-file paths touched by the first reader vs the model
+    let m = drv.call("C28", json!({"op":"resolve","root": copy.to_string_lossy(), "stored": stored_paths, "legacy": false}));
+    let want: BTreeSet<String> = m["paths"].as_array().cloned().unwrap_or_default().iter().filter_map(|p| p.as_str().map(|x| x.to_string())).collect();
+    let touched: BTreeSet<String> = evs.iter().map(|(_, p)| p.to_string_lossy().to_string()).collect();
+    let orig_names: BTreeSet<String> = stored_paths.iter().map(|p| Path::new(p).file_name().unwrap().to_string_lossy().to_string()).collect();
+    let touched_seg: BTreeSet<String> = touched.iter().filter(|p| orig_names.contains(&Path::new(p).file_name().map(|n| n.to_string_lossy().to_string()).unwrap_or_default())).cloned().collect();
+    if touched_seg != want {
+      s.disagree("paths.touched", &sub, json!(touched_seg), json!(want));
+    }
+    s.traces_validated += 1;
+  }
 }
